@@ -955,13 +955,48 @@ def formParams : List (Str × List Str) → Obj
     if (vs.filter (fun v => !v.isEmpty)).isEmpty then formParams rest
     else (stripArraySuffix k, .arr ((vs.filter (fun v => !v.isEmpty)).map .str)) :: formParams rest
 
-/-- `encoding.ParseHeaders`: a single value is handed over as a string, several as a `[]string`
+/-- the values of one key of an `http.Header`: `none` is a nil `[]string` (`http.Header{"X": nil}`), `some []` an
+empty one (a middleware that filtered every value away: `h[k] = kept[:0]`) -/
+abbrev HVals := Option (List Str)
+
+def HVals.len : HVals → Nat
+  | none => 0
+  | some l => l.length
+
+/-- `[]string` handed to the unmarshaller as a value: a nil slice behaves like an array whose elements are all null
+(`fillSlice` stores nothing: `refValue.IsNil()`), for every other target kind both are "a slice" -/
+def HVals.toJ : HVals → J
+  | none => .arr [.null]
+  | some l => .arr (l.map .str)
+
+/-- the decision of `encoding.ParseHeaders`: `len(v) == 1` ⇒ the value is handed over as a string -/
+def headerScalar (len : Int) : Bool := decide (len = 1)
+
+/-- `v[i]` in Go: an index outside `0 ≤ i < len(v)` panics -/
+def goIndex (vs : HVals) (i : Int) : Except Err Str :=
+  if i < 0 then .error .panic
+  else match (vs.getD [])[i.toNat]? with
+    | some v => .ok v
+    | none => .error .panic
+
+/-- one iteration of the loop of `encoding.ParseHeaders` for an arbitrary scalar-vs-slice decision `scalar` and
+index `idx` (the code: `if len(v) == 1 { m[k] = v[0] } else { m[k] = v }`) -/
+def headerEntryG (scalar : Int → Bool) (idx : Int) (vs : HVals) : Except Err J :=
+  if scalar vs.len then (goIndex vs idx).map .str else .ok vs.toJ
+
+/-- the loop body of `encoding.ParseHeaders` as it is written -/
+def headerEntry (vs : HVals) : Except Err J := headerEntryG headerScalar 0 vs
+
+/-- what `headerEntry` computes (total: `Props.headerEntry_total`) -/
+def headerVal : HVals → J
+  | some [v] => .str v
+  | vs => vs.toJ
+
+/-- `encoding.ParseHeaders`: a single value is handed over as a string, zero or several as a `[]string`
 (net/http has canonicalised the names) -/
-def headerParams : List (Str × List Str) → Obj
+def headerParams : List (Str × HVals) → Obj
   | [] => []
-  | (_, []) :: rest => headerParams rest
-  | (k, [v]) :: rest => (canonKey k, .str v) :: headerParams rest
-  | (k, vs) :: rest => (canonKey k, .arr (vs.map .str)) :: headerParams rest
+  | (k, vs) :: rest => (canonKey k, headerVal vs) :: headerParams rest
 
 /-- every field keeps the value of the unmarshaler that owns its tag key -/
 def mergeViews : Fields → VFields → VFields → VFields → VFields → VFields
@@ -971,22 +1006,40 @@ def mergeViews : Fields → VFields → VFields → VFields → VFields → VFie
       (mergeViews rest r1 r2 r3 r4)
   | _, _, _, _, _ => .nil
 
+/-- `httpx.ParsePath`: the path unmarshaler on the path variables -/
+def httpParsePath (pinned : Bool) (fs : Fields) (p : Obj) : Except Err VFields :=
+  unmFields (httpCfgPath pinned) (viewFields "path".toList fs) p
+
+/-- `httpx.ParseForm`: the form unmarshaler on `GetFormValues` -/
+def httpParseForm (pinned : Bool) (fs : Fields) (f : List (Str × List Str)) : Except Err VFields :=
+  unmFields (httpCfgForm pinned) (viewFields "form".toList fs) (formParams f)
+
+/-- `httpx.ParseHeaders` = `encoding.ParseHeaders(r.Header, v)`: the header unmarshaler on `headerParams` -/
+def httpParseHeaders (pinned : Bool) (fs : Fields) (h : List (Str × HVals)) : Except Err VFields :=
+  unmFields (httpCfgHeader pinned) (viewFields "header".toList fs) (headerParams h)
+
+/-- `httpx.ParseJsonBody`: the JSON unmarshaler on the body, on the empty object without one (`UnmarshalJsonMap(nil, v)`) -/
+def httpParseJsonBody (pinned : Bool) (fs : Fields) (b : Option J) : Except Err VFields :=
+  match unmarshal (httpCfgJson pinned) (.struct (viewFields "json".toList fs)) (b.getD (.obj [])) with
+  | .ok (.struct v4) => .ok v4
+  | .ok _ => .error .outside
+  | .error e => .error e
+
 /-- `httpx.Parse(r, &v)`: ParsePath, ParseForm, ParseHeaders, ParseJsonBody in this order, the first error wins;
 without a JSON body the json unmarshaler runs on the empty object -/
-def httpParse (pinned : Bool) (fs : Fields) (p : Obj) (f h : List (Str × List Str)) (b : Option J) :
+def httpParse (pinned : Bool) (fs : Fields) (p : Obj) (f : List (Str × List Str)) (h : List (Str × HVals)) (b : Option J) :
     Except Err VFields :=
-  match unmFields (httpCfgPath pinned) (viewFields "path".toList fs) p with
+  match httpParsePath pinned fs p with
   | .error e => .error e
   | .ok v1 =>
-    match unmFields (httpCfgForm pinned) (viewFields "form".toList fs) (formParams f) with
+    match httpParseForm pinned fs f with
     | .error e => .error e
     | .ok v2 =>
-      match unmFields (httpCfgHeader pinned) (viewFields "header".toList fs) (headerParams h) with
+      match httpParseHeaders pinned fs h with
       | .error e => .error e
       | .ok v3 =>
-        match unmarshal (httpCfgJson pinned) (.struct (viewFields "json".toList fs)) (b.getD (.obj [])) with
-        | .ok (.struct v4) => .ok (mergeViews fs v1 v2 v3 v4)
-        | .ok _ => .error .outside
+        match httpParseJsonBody pinned fs b with
         | .error e => .error e
+        | .ok v4 => .ok (mergeViews fs v1 v2 v3 v4)
 
 end GoZero.C08
